@@ -26,7 +26,14 @@ struct ProbeNode {
 }
 
 fn weight(id: usize) -> f32 {
-    3u32.pow(id as u32) as f32 // 3^id: path-count multiples stay exact in f32 for every enumerated graph
+    // 3^id: path-count multiples stay exact in f32 for every enumerated graph; the large scale-probe
+    // graphs (chains, stars, trees on hundreds of nodes) use weight 1 beyond node 13 so that every
+    // partial sum stays an integer below 2^24
+    if id < 14 {
+        3u32.pow(id as u32) as f32
+    } else {
+        1.0
+    }
 }
 
 impl Node for ProbeNode {
@@ -280,7 +287,8 @@ fn check_call(c: &Case, e: &Expect, log: &[Rec], ptrs: &[(usize, usize)], out_va
         }
         done[x] = true;
     }
-    if e.acyclic && out_val as f64 != e.value[c.out] {
+    // (all weights are positive integers, so every partial sum is exact in f32 while the total is below 2^24)
+    if e.acyclic && e.value[c.out] < 16_777_216.0 && out_val as f64 != e.value[c.out] {
         return Err(("graph.value".into(), format!("call {call}: output buffer holds {out_val}, functional evaluation gives {}", e.value[c.out])));
     }
     Ok(())
@@ -369,6 +377,36 @@ fn minimal_history(hist: &[Case], c: &Case) -> Vec<Case> {
     }
 }
 
+/// scale probe: structured graphs on hundreds of nodes (compact case representation)
+const BIG_FAMILIES: [&str; 8] = ["chain", "reversed chain", "star into 0", "star out of 0", "ring", "binary tree towards the root", "bidirectional chain", "chain plus an edge from node 0 to every other node"];
+fn big_case(fam: usize, n: usize, out: usize, cont: u8) -> Case {
+    let e: Vec<(usize, usize)> = match fam {
+        0 => (0..n - 1).map(|i| (i, i + 1)).collect(),
+        1 => (0..n - 1).map(|i| (i + 1, i)).collect(),
+        2 => (1..n).map(|i| (i, 0)).collect(),
+        3 => (1..n).map(|i| (0, i)).collect(),
+        4 => (0..n).map(|i| (i, (i + 1) % n)).collect(),
+        5 => (1..n).map(|i| (i, (i - 1) / 2)).collect(),
+        6 => (0..n - 1).flat_map(|i| [(i, i + 1), (i + 1, i)]).collect(),
+        _ => (0..n - 1).map(|i| (i, i + 1)).chain((1..n).map(|i| (0, i))).collect(),
+    };
+    let mut m = vec![0u8; n * n];
+    for (a, b) in e {
+        m[a * n + b] = (m[a * n + b] + 1).min(2);
+    }
+    Case { n, mult: m, out, cont }
+}
+fn run_big(fam: usize, n: usize, out: usize, cont: u8) -> Option<Bad> {
+    let c = big_case(fam, n, out, cont);
+    let mut p1 = Processor::<G1>::with_capacity(n);
+    let mut p2 = Processor::<G2>::with_capacity(n);
+    match catch(|| run_case(&c, &mut p1, &mut p2)) {
+        Ok(Ok(())) => None,
+        Ok(Err((k, m))) => Some((k, format!("{} on {n} nodes, output node {out}, container {cont}: {m}", BIG_FAMILIES[fam.min(7)]))),
+        Err(p) => Some(("graph.panic".into(), format!("{} on {n} nodes: panicked: {p}", BIG_FAMILIES[fam.min(7)]))),
+    }
+}
+
 /// scale probe: nodes with very many (or no) output buffers: every Input must expose exactly the
 /// neighbour's buffer slice (same address, same length)
 fn bufcount_case(counts: &[usize]) -> Option<(String, String)> {
@@ -408,6 +446,11 @@ fn bufcount_case(counts: &[usize]) -> Option<(String, String)> {
 fn main() {
     let ctx = Ctx::new("C09", "release");
     if let Some(v) = ctx.replay_case() {
+        if v["sys"] == "biggraph" {
+            let g = |k: &str| v[k].as_u64().unwrap_or(0) as usize;
+            let _guard_scope = guard::scoped(&v.to_string());
+            ctx.finish_replay(run_big(g("fam"), g("n"), g("out"), g("cont") as u8).map(|e| format!("{}: {}", e.0, e.1)));
+        }
         if v["sys"] == "bufcount" {
             let cs: Vec<usize> = v["counts"].as_array().map(|a| a.iter().map(|x| x.as_u64().unwrap_or(0) as usize).collect()).unwrap_or_default();
             let _guard_scope = guard::scoped(&v.to_string());
@@ -421,7 +464,7 @@ fn main() {
         let hist: Vec<Case> = v["history"].as_array().map(|a| a.iter().filter_map(Case::from_json).collect()).unwrap_or_default();
         ctx.finish_replay(run_with_history(&hist, &c));
     }
-    ctx.rule("every directed multigraph on n<=3 nodes with multiplicity 0..2 per ordered pair (self pairs included), every digraph with loops on 4 nodes (thorough: every loop-free digraph on 5 nodes) x every output node x container in {Graph, StableGraph, StableGraph with vacancies before/between/after/all (dummy nodes wired in and removed)} x 2 consecutive process calls (60 for the scale-probe graphs) on a processor reused across a whole chunk of the enumeration (256 graphs x outputs x containers; a violation's replay artefact carries the shortest suffix of that history with which it reproduces on a fresh processor); instrumented nodes log (node, call, own buffer ptr, per input ptr/len/value/call#); oracle: independent reverse reachability, multiset of in-edges by buffer identity, no self-alias, topological order and functional evaluation when the upstream subgraph is acyclic, sources()/sinks() == existing nodes without in/out edges; plus scale probes: nodes with 0, 1, 2, 255, 256, 257 and 1000 output buffers in every combination on a 3-node graph; 12 structured families (chains, stars, rings, complete DAG / digraph, tree, double edges, ...) on 5..=9 nodes; non-trivial = at least one edge, distinct by (graph, output, container)");
+    ctx.rule("every directed multigraph on n<=3 nodes with multiplicity 0..2 per ordered pair (self pairs included), every digraph with loops on 4 nodes (thorough: every loop-free digraph on 5 nodes) x every output node x container in {Graph, StableGraph, StableGraph with vacancies before/between/after/all (dummy nodes wired in and removed)} x 2 consecutive process calls (60 for the scale-probe graphs) on a processor reused across a whole chunk of the enumeration (256 graphs x outputs x containers; a violation's replay artefact carries the shortest suffix of that history with which it reproduces on a fresh processor); instrumented nodes log (node, call, own buffer ptr, per input ptr/len/value/call#); oracle: independent reverse reachability, multiset of in-edges by buffer identity, no self-alias, topological order and functional evaluation when the upstream subgraph is acyclic, sources()/sinks() == existing nodes without in/out edges; plus scale probes: nodes with 0, 1, 2, 255, 256, 257 and 1000 output buffers in every combination on a 3-node graph; 12 structured families (chains, stars, rings, complete DAG / digraph, tree, double edges, ...) on 5..=9 nodes; 8 structured families (chain, reversed chain, stars, ring, binary tree, bidirectional chain, chain with a fan-out from node 0) on 33, 64, 255, 256, 257 nodes (thorough: also 31, 32, 100, 300) x output node in {0, 1, n/2, n-2, n-1} x {Graph, StableGraph}, 60 calls each; non-trivial = at least one edge, distinct by (graph, output, container)");
     // enumerate
     let mut graphs: Vec<(usize, Vec<u8>)> = Vec::new();
     for n in 1..=3usize {
@@ -520,6 +563,30 @@ fn main() {
         ctx.observe_many(fps);
         guard::leave();
     });
+    // scale probes: structured graphs on hundreds of nodes, 60 calls each
+    let big_ns: &[usize] = if ctx.thorough() { &[31, 32, 33, 64, 100, 255, 256, 257, 300] } else { &[33, 64, 255, 256, 257] };
+    let mut bigs = Vec::new();
+    for &n in big_ns {
+        for fam in 0..BIG_FAMILIES.len() {
+            for out in [0, 1, n / 2, n - 2, n - 1] {
+                for cont in 0..2u8 {
+                    bigs.push((fam, n, out, cont));
+                }
+            }
+        }
+    }
+    guard::set_hang_secs(300);
+    bigs.par_iter().for_each(|&(fam, n, out, cont)| {
+        let case = json!({"sys":"biggraph","fam":fam,"family":BIG_FAMILIES[fam],"n":n,"out":out,"cont":cont});
+        let _guard_scope = guard::scoped(&case.to_string());
+        evals.fetch_add(1, Relaxed);
+        calls.fetch_add(60, Relaxed);
+        match run_big(fam, n, out, cont) {
+            None => ctx.observe(common::fnv_str(&case.to_string())),
+            Some((k, m)) => ctx.violation(&k, case, m, Some(&|| run_big(fam, n, out, cont).map(|e| e.1))),
+        }
+    });
+    ctx.set("big_graph_cases", json!(bigs.len()));
     // scale probes: buffer counts per node
     let counts = [0usize, 1, 2, 255, 256, 257, 1000];
     for &a in &counts {
